@@ -348,7 +348,16 @@ impl<'tx> TxInner<'tx> {
                 m.hash = m.hash_self();
 
                 file.seek(SeekFrom::Start(self.db.inner.pagesize * meta_page_id))?;
-                file.write_all(buf.as_slice())?;
+                if let Err(e) = file.write_all(buf.as_slice()) {
+                    // The write may have been partially applied. If enough of it reached the file for
+                    // the new meta page to be valid, it is already visible through the mmap, so the
+                    // shared freelist has to match it.
+                    if self.db.inner.meta()?.tx_id == self.meta.tx_id {
+                        let mut lock = self.db.inner.freelist.lock()?;
+                        *lock = freelist.inner.clone();
+                    }
+                    return Err(e.into());
+                }
             }
 
             // The new meta page is visible through the mmap from here on, so the shared
